@@ -41,6 +41,7 @@ Malformed(c) ==
   \/ (c.verb \in {"register", "add-nexthop"} /\ c.faceId > 0 /\ c.faceId \notin DOMAIN faces)
   \/ (c.mod = "strategy-choice" /\ c.verb = "unset" /\ c.name = <<>>)
   \/ (c.mod = "cs" /\ c.capacity = -2)
+  \/ (c.mod = "cs" /\ c.flagsMask \in {"flags", "mask"})                                  \* likewise for cs/config
   \/ (c.mod = "faces" /\ c.verb = "update" /\ EffFace(c) \notin DOMAIN faces)
   \/ (c.mod = "faces" /\ c.verb = "update" /\ c.mtu >= 0 /\ c.mtu < 1)          \* an MTU that cannot carry any fragment
   \/ (c.mod = "faces" /\ c.verb = "update" /\ c.flagsMask \in {"flags", "mask"})      \* Flags and Mask come together or not at all
